@@ -95,6 +95,11 @@ def _worker(args):
 
     def evaluate(case, ev):
         pr, bads = case
+        try:
+            P.evaluate(pr)      # programs whose result the language does not fix, or that grow exponentially, are not compared
+        except P.OutOfModel:
+            ev.classes["out_of_model"] += 1
+            return None
         forms = forms_of(P.render(pr))
         # the catalogue's helper declarations are ordinary accepted forms placed after the header
         hdr = [i for i, f in enumerate(forms) if f.startswith("pr") and "(tg: String" in f]
